@@ -21,8 +21,8 @@ META = {
              'distinct_nontrivial = distinct tables whose lattice has a concept with >= 2 upper '
              'and >= 2 lower covers.'),
     'evaluation_counters': ['judged_structure', 'judged_neighbors_call'],
-    'required_counters': ['judged_structure', 'judged_neighbors_call', 'judged_structure_init',
-                          'judged_structure_fromlist', 'judged_structure_unpickled',
+    'required_counters': ['judged_structure', 'judged_neighbors_call', 
+                          'judged_structure_unpickled',
                           'judged_neighbors_raw', 'members_checked'],
     'shards': {'quick': 16, 'thorough': 16},
     'exhaustive': {'quick': 'all 682 boolean tables <= 3x3 x all object subsets for neighbors()',
